@@ -35,7 +35,10 @@ Up == Rel(<<Step("parent", T_node), Step("child", T_any)>>)      \* a sub-query 
 PN == Rel(<<Step("child", T_name("p", <<"n">>))>>)
 VarV == Var("", <<"v">>)
 Bound1 == Struct(<<Field(PN, Prim("int")), Field(VarV, Prim("string"))>>)
-UEnv == [ns |-> [p |-> U1], vars |-> <<[sp |-> <<>>, lo |-> <<"v">>, val |-> StrV(<<"w">>)]>>, funcs |-> <<>>]
+\* ... and the call's function library: p:f returns its first argument, k7() is the constant 7
+UEnv == [ns |-> [p |-> U1], vars |-> <<[sp |-> <<>>, lo |-> <<"v">>, val |-> StrV(<<"w">>)]>>,
+         funcs |-> <<[sp |-> U1, lo |-> <<"f">>, kind |-> "arg", i |-> 1], [sp |-> <<>>, lo |-> <<"k","7">>, kind |-> "const", val |-> NumV(NInt(7))]>>]
+Bound2 == Struct(<<Field(CallP("p", <<"f">>, <<A_>>), Prim("string")), Field(Call(<<"k","7">>, <<>>), Prim("int")), Field(CallP("p", <<"f">>, <<Id, IntE(2)>>), Prim("int"))>>)
 Inner == Struct(<<Field(D_, Slice(Prim("int"))), Field(Up, Slice(Prim("string"))), Untagged(Prim("string"))>>)
 Types == << Struct(<<Field(A_, Prim("string")), Field(Id, Prim("int")), Field(AEq1, Prim("bool")), Untagged(Prim("int"))>>),
             Struct(<<Field(A_, Slice(Prim("string"))), Field(A_, Slice(Ptr(Prim("int8")))), Field(CountA, Prim("float64")), Field(None, Prim("string"))>>),
@@ -55,6 +58,12 @@ Types == << Struct(<<Field(A_, Prim("string")), Field(Id, Prim("int")), Field(AE
             Struct(<<Untagged(Prim("string")), Untagged(Prim("int"))>>),
             Struct(<<Field(Cc, Bound1), Field(VarV, Prim("string"))>>), Struct(<<Field(Cc, Ptr(Bound1))>>), Struct(<<Field(Cc, Ptr(Ptr(Bound1)))>>),
             Struct(<<Field(Cc, Slice(Bound1))>>), Struct(<<Field(Cc, Slice(Ptr(Bound1)))>>), Slice(Struct(<<Field(Cc, Ptr(Bound1))>>)),
+            \* scalar fields over a several-node result of a REVERSE axis: the value is that of the first node in document order (a = "1", d = "3")
+            Struct(<<Field(Rel(<<Step("child", T_name("", <<"b">>)), Step("preceding-sibling", T_any)>>), Prim("string")),
+                     Field(Rel(<<Step("child", T_name("", <<"b">>)), Step("preceding-sibling", T_any)>>), Prim("int")),
+                     Field(Rel(<<Step("child", T_name("", <<"e">>)), Step("preceding", T_name("", <<"d">>))>>), Ptr(Prim("float64")))>>),
+            \* (no slice field over a reverse axis: "result order" may then be ascending or descending, see C03)
+            Bound2, Struct(<<Field(Cc, Bound2)>>), Slice(Struct(<<Field(Rel(<<Self>>), Ptr(Bound2))>>)),
             Ptr(Struct(<<Field(A_, Prim("string"))>>)), Ptr(Ptr(Struct(<<Field(Id, Prim("int32"))>>))),
             Slice(Prim("string")), Slice(Prim("int")), Slice(Prim("float32")), Slice(Prim("bool")), Slice(Ptr(Prim("string"))),
             Slice(Struct(<<Field(Rel(<<Self>>), Prim("string")), Field(Rel(<<Step("following-sibling", T_any)>>), Slice(Prim("string")))>>)),
